@@ -42,7 +42,7 @@ fn gen_c07(p: &mut Prng, id: String) -> FwCase {
         let evs: Vec<TriggerEvent> = (0..k).map(|_| if p.chance(3, 5) { completion_for(p, n) } else { gen_event(p, n) }).collect();
         calls.push((t, evs));
     }
-    FwCase { id, kind: "c07".into(), machines, fp: 0.0, fb: 0.0, t0: 0, calls, rng_seed: p.next(), extreme: 0, ni: None }
+    FwCase { id, kind: "c07".into(), machines, fp: 0.0, fb: 0.0, t0: 0, calls, rng_seed: p.next(), extreme: 0, ni: None, prefix: vec![] }
 }
 
 /// C08: counters everywhere, several machines hitting zero in one call, copy meets saturation.
@@ -57,11 +57,77 @@ fn gen_c08(p: &mut Prng, id: String) -> FwCase {
     let machines: Vec<Machine> = (0..n).map(|_| genm::gen_machine(p, &cfg)).collect();
     let single = p.chance(1, 2);
     let calls = gen_history(p, n, single, 60, false);
-    FwCase { id, kind: "c08".into(), machines, fp: 0.0, fb: 0.0, t0: 0, calls, rng_seed: p.next(), extreme: 0, ni: None }
+    FwCase { id, kind: "c08".into(), machines, fp: 0.0, fb: 0.0, t0: 0, calls, rng_seed: p.next(), extreme: 0, ni: None, prefix: vec![] }
+}
+
+/// C09, role-based: every machine signals on one chosen external event, may END on another,
+/// may answer a delivered Signal by signalling, and acts on Signal; batches are drawn from the
+/// events in use so that "X signals, X ends, Y signals" and similar orders occur within one call.
+fn gen_c09_roles(p: &mut Prng, id: String) -> FwCase {
+    use enum_map::enum_map;
+    use maybenot::action::Action;
+    use maybenot::constants::{STATE_END, STATE_SIGNAL};
+    use maybenot::dist::{Dist, DistType};
+    use maybenot::event::Event;
+    use maybenot::state::{State, Trans};
+    let ext = [Event::NormalRecv, Event::PaddingRecv, Event::TunnelRecv, Event::NormalSent, Event::TunnelSent, Event::BlockingEnd];
+    let n = p.range(2, 4) as usize;
+    let k = |v: f64| Dist { dist: DistType::Uniform { low: v, high: v }, start: 0.0, max: 0.0 };
+    let mut machines = Vec::new();
+    for i in 0..n {
+        let sig_ev = *p.pick(&ext);
+        let end_ev = *p.pick(&ext);
+        let mut t0 = enum_map! { _ => vec![] };
+        if p.chance(3, 4) {
+            t0[sig_ev] = vec![Trans(STATE_SIGNAL, 1.0)];
+        }
+        if end_ev != sig_ev && p.chance(1, 2) {
+            t0[end_ev] = vec![Trans(STATE_END, 1.0)];
+        }
+        // reaction to a delivered Signal: act (state 1), answer by signalling, or both via state 1
+        match p.below(4) {
+            0 => t0[Event::Signal] = vec![Trans(1, 1.0)],
+            1 => t0[Event::Signal] = vec![Trans(STATE_SIGNAL, 1.0)],
+            2 => t0[Event::Signal] = vec![Trans(1, 0.5), Trans(STATE_SIGNAL, 0.5)],
+            _ => {}
+        }
+        let mut s0 = State::new(t0);
+        if p.chance(1, 3) {
+            s0.action = Some(Action::SendPadding { bypass: false, replace: false, timeout: k(i as f64), limit: None });
+        }
+        let mut t1 = enum_map! { _ => vec![] };
+        t1[Event::Signal] = vec![Trans(0, 1.0)];
+        t1[sig_ev] = vec![Trans(0, 1.0)];
+        let mut s1 = State::new(t1);
+        s1.action = Some(Action::SendPadding { bypass: false, replace: false, timeout: k(10.0 + i as f64), limit: None });
+        machines.push(Machine::new(1000, 0.0, 0, 0.0, vec![s0, s1]).expect("role machine"));
+    }
+    let ncalls = p.range(1, 12);
+    let mut t: i128 = 0;
+    let mut calls = Vec::new();
+    for _ in 0..ncalls {
+        t += 1000;
+        let len = p.range(1, 5);
+        let evs: Vec<TriggerEvent> = (0..len)
+            .map(|_| match p.below(6) {
+                0 => TriggerEvent::NormalRecv,
+                1 => TriggerEvent::PaddingRecv,
+                2 => TriggerEvent::TunnelRecv,
+                3 => TriggerEvent::NormalSent,
+                4 => TriggerEvent::TunnelSent,
+                _ => TriggerEvent::BlockingEnd,
+            })
+            .collect();
+        calls.push((t, evs));
+    }
+    FwCase { id, kind: "c09".into(), machines, fp: 0.0, fb: 0.0, t0: 0, calls, rng_seed: p.next(), extreme: 0, ni: None, prefix: vec![] }
 }
 
 /// C09: machines that signal on external events, LimitReached, CounterZero and Signal.
 fn gen_c09(p: &mut Prng, id: String) -> FwCase {
+    if p.chance(1, 2) {
+        return gen_c09_roles(p, id);
+    }
     let mut cfg = GenCfg::default();
     cfg.dist = DistMode::Const;
     cfg.max_states = p.range(1, 3) as usize;
@@ -73,7 +139,7 @@ fn gen_c09(p: &mut Prng, id: String) -> FwCase {
     let machines: Vec<Machine> = (0..n).map(|_| genm::gen_machine(p, &cfg)).collect();
     let single = p.chance(1, 2);
     let calls = gen_history(p, n, single, 40, false);
-    FwCase { id, kind: "c09".into(), machines, fp: 0.0, fb: 0.0, t0: 0, calls, rng_seed: p.next(), extreme: 0, ni: None }
+    FwCase { id, kind: "c09".into(), machines, fp: 0.0, fb: 0.0, t0: 0, calls, rng_seed: p.next(), extreme: 0, ni: None, prefix: vec![] }
 }
 
 /// C10: a draw-independent probe machine that never signals, next to arbitrary non-signalling
@@ -96,7 +162,199 @@ fn gen_ni(p: &mut Prng, id: String) -> FwCase {
     let single = p.chance(1, 2);
     let wild = p.chance(1, 3);
     let calls = gen_history(p, n, single, 50, wild);
-    FwCase { id, kind: "ni".into(), machines, fp: 0.0, fb: 0.0, t0: 0, calls, rng_seed: p.next(), extreme: 0, ni: Some(pos) }
+    FwCase { id, kind: "ni".into(), machines, fp: 0.0, fb: 0.0, t0: 0, calls, rng_seed: p.next(), extreme: 0, ni: Some(pos), prefix: vec![] }
+}
+
+/// Library of small machine sets for the bounded-exhaustive family of C05: 1-3 machines,
+/// 1-3 states, dyadic probabilities, constant distributions.
+fn exh_machine_sets() -> Vec<Vec<Machine>> {
+    use enum_map::enum_map;
+    use maybenot::action::Action;
+    use maybenot::constants::{STATE_END, STATE_SIGNAL};
+    use maybenot::counter::{Counter, Operation};
+    use maybenot::dist::{Dist, DistType};
+    use maybenot::event::Event;
+    use maybenot::state::{State, Trans};
+    use maybenot::Timer;
+    let k = |v: f64| Dist { dist: DistType::Uniform { low: v, high: v }, start: 0.0, max: 0.0 };
+    let pad = |lim: Option<f64>| Action::SendPadding { bypass: false, replace: true, timeout: k(2.0), limit: lim.map(k) };
+    let blk = |rp: bool| Action::BlockOutgoing { bypass: true, replace: rp, timeout: k(0.0), duration: k(5.0), limit: Some(k(1.0)) };
+    let tmr = Action::UpdateTimer { replace: false, duration: k(3.0), limit: None };
+    // machine 1: two states, 1/2-1/2 split on NormalSent, padding with limit 1, LimitReached back to 0
+    let mut a0 = State::new(enum_map! {
+        Event::NormalSent => vec![Trans(1, 0.5), Trans(0, 0.5)],
+        Event::NormalRecv => vec![Trans(1, 0.25)],
+        Event::BlockingBegin => vec![Trans(STATE_SIGNAL, 0.5)],
+        _ => vec![],
+    });
+    a0.counter = (Some(Counter::new(Operation::Increment)), None);
+    let mut a1 = State::new(enum_map! {
+        Event::PaddingSent => vec![Trans(1, 1.0)],
+        Event::LimitReached => vec![Trans(0, 1.0)],
+        Event::CounterZero => vec![Trans(STATE_END, 0.5)],
+        Event::Signal => vec![Trans(0, 1.0)],
+        _ => vec![],
+    });
+    a1.action = Some(pad(Some(1.0)));
+    a1.counter = (Some(Counter::new(Operation::Decrement)), Some(Counter::new_copy(Operation::Set)));
+    let m1 = Machine::new(1, 0.5, 0, 0.0, vec![a0, a1]).unwrap();
+    // machine 2: blocking + timer, signals on TimerEnd, three states
+    let mut b0 = State::new(enum_map! {
+        Event::NormalSent => vec![Trans(1, 1.0)],
+        Event::Signal => vec![Trans(2, 0.5), Trans(STATE_SIGNAL, 0.25)],
+        Event::TunnelRecv => vec![Trans(0, 1.0)],
+        _ => vec![],
+    });
+    b0.action = Some(Action::Cancel { timer: Timer::All });
+    let mut b1 = State::new(enum_map! {
+        Event::BlockingBegin => vec![Trans(1, 0.5)],
+        Event::BlockingEnd => vec![Trans(2, 1.0)],
+        Event::LimitReached => vec![Trans(STATE_SIGNAL, 1.0)],
+        _ => vec![],
+    });
+    b1.action = Some(blk(false));
+    let mut b2 = State::new(enum_map! {
+        Event::TimerBegin => vec![Trans(2, 0.25), Trans(0, 0.25)],
+        Event::TimerEnd => vec![Trans(STATE_SIGNAL, 0.5), Trans(1, 0.5)],
+        Event::PaddingRecv => vec![Trans(STATE_END, 0.25)],
+        _ => vec![],
+    });
+    b2.action = Some(tmr);
+    b2.counter = (None, Some(Counter::new_dist(Operation::Set, k(0.0))));
+    let m2 = Machine::new(0, 0.0, 10, 0.5, vec![b0, b1, b2]).unwrap();
+    // machine 3: one state, pads on everything with probability 1/2, replace blocking
+    let mut c0 = State::new(enum_map! {
+        Event::NormalSent => vec![Trans(0, 0.5)],
+        Event::TunnelSent => vec![Trans(0, 1.0)],
+        Event::PaddingSent => vec![Trans(0, 0.5)],
+        Event::BlockingBegin => vec![Trans(0, 1.0)],
+        _ => vec![],
+    });
+    c0.action = Some(blk(true));
+    let m3 = Machine::new(0, 0.0, 0, 0.25, vec![c0]).unwrap();
+    vec![
+        vec![m1.clone()],
+        vec![m2.clone()],
+        vec![m3.clone()],
+        vec![m1.clone(), m2.clone()],
+        vec![m2.clone(), m1.clone()],
+        vec![m1.clone(), m3.clone()],
+        vec![m3.clone(), m2.clone(), m1.clone()],
+        vec![m1.clone(), m1.clone()],
+    ]
+}
+
+/// Bounded-exhaustive family (C05): index `i` enumerates machine set x event history of depth
+/// `depth` over the full event alphabet (ids: machine 0 / unknown) x clock pattern x scripted draw
+/// words (representative and boundary words of the dyadic thresholds).
+pub fn gen_exh(i: u64, depth: u32, id: String) -> Option<FwCase> {
+    let sets = exh_machine_sets();
+    let words: [u64; 6] = [0x0000_0000_0000_0000, 0x3fff_fe00_0000_0000, 0x4000_0000_0000_0000, 0x7fff_fe00_0000_0000, 0x8000_0000_0000_0000, 0xffff_ffff_ffff_ffff];
+    let alphabet = |n: usize| -> Vec<TriggerEvent> {
+        let ids = [MachineId::from_raw(0), MachineId::from_raw(n)];
+        let mut v = vec![TriggerEvent::NormalRecv, TriggerEvent::PaddingRecv, TriggerEvent::TunnelRecv, TriggerEvent::NormalSent, TriggerEvent::TunnelSent, TriggerEvent::BlockingEnd];
+        for m in ids {
+            v.push(TriggerEvent::PaddingSent { machine: m });
+            v.push(TriggerEvent::BlockingBegin { machine: m });
+            v.push(TriggerEvent::TimerBegin { machine: m });
+            v.push(TriggerEvent::TimerEnd { machine: m });
+        }
+        v
+    };
+    let clocks: [[i128; 3]; 4] = [[0, 0, 0], [1_000, 1_000, 1_000], [86_400_000_000_000, 0, 1_000], [1_000_000, -1_000_000_000, 1_000]];
+    let mut x = i;
+    let si = (x % sets.len() as u64) as usize;
+    x /= sets.len() as u64;
+    let machines = sets[si].clone();
+    let al = alphabet(machines.len());
+    let mut evs = Vec::new();
+    for _ in 0..depth {
+        evs.push(al[(x % al.len() as u64) as usize].clone());
+        x /= al.len() as u64;
+    }
+    let ck = clocks[(x % 4) as usize];
+    x /= 4;
+    let mut prefix = Vec::new();
+    for _ in 0..3 {
+        prefix.push(words[(x % 6) as usize]);
+        x /= 6;
+    }
+    if x > 0 {
+        return None; // enumeration exhausted
+    }
+    let mut t: i128 = 0;
+    let mut calls = Vec::new();
+    for (k, e) in evs.into_iter().enumerate() {
+        t += ck[k.min(2)];
+        calls.push((t, vec![e]));
+    }
+    Some(FwCase { id, kind: "exh".into(), machines, fp: 0.5, fb: 0.5, t0: 0, calls, rng_seed: i, extreme: 0, ni: None, prefix: vec![] }.with_prefix(prefix))
+}
+
+pub fn exh_size(depth: u32) -> u64 {
+    let sets = exh_machine_sets().len() as u64;
+    sets * 14u64.pow(depth) * 4 * 216
+}
+
+/// C01: CounterZero cycles — states that send each other CounterZero while re-arming the other
+/// counter with Set/Increment, so that only the once-per-call guard bounds the recursion.
+fn gen_czcycle(p: &mut Prng, id: String) -> FwCase {
+    use enum_map::enum_map;
+    use maybenot::action::Action;
+    use maybenot::counter::{Counter, Operation};
+    use maybenot::dist::{Dist, DistType};
+    use maybenot::event::Event;
+    use maybenot::state::{State, Trans};
+    let k = |v: f64| Dist { dist: DistType::Uniform { low: v, high: v }, start: 0.0, max: 0.0 };
+    let nm = p.range(1, 2) as usize;
+    let mut machines = Vec::new();
+    for _ in 0..nm {
+        let ns = p.range(2, 3) as usize;
+        let mut states = Vec::new();
+        for si in 0..ns {
+            let mut t = enum_map! { _ => vec![] };
+            t[Event::CounterZero] = vec![Trans(p.below(ns as u64) as usize, 1.0)];
+            t[Event::NormalSent] = vec![Trans(p.below(ns as u64) as usize, 1.0)];
+            t[Event::NormalRecv] = vec![Trans((si + 1) % ns, 1.0)];
+            if p.chance(1, 3) {
+                t[Event::LimitReached] = vec![Trans(p.below(ns as u64) as usize, 1.0)];
+            }
+            let mut st = State::new(t);
+            let ctr = |p: &mut Prng| -> Option<Counter> {
+                match p.below(7) {
+                    0 => None,
+                    1 => Some(Counter::new_dist(Operation::Set, k(0.0))),
+                    2 => Some(Counter::new_dist(Operation::Set, k(1.0))),
+                    3 => Some(Counter::new(Operation::Decrement)),
+                    4 => Some(Counter::new(Operation::Increment)),
+                    5 => Some(Counter::new_copy(Operation::Set)),
+                    _ => Some(Counter::new_dist(Operation::Decrement, k(5.0))),
+                }
+            };
+            st.counter = (ctr(p), ctr(p));
+            if p.chance(1, 2) {
+                st.action = Some(Action::SendPadding { bypass: false, replace: false, timeout: k(si as f64), limit: if p.chance(1, 2) { Some(k(1.0)) } else { None } });
+            }
+            states.push(st);
+        }
+        machines.push(Machine::new(1000, 0.0, 0, 0.0, states).expect("czcycle machine"));
+    }
+    let ncalls = p.range(2, 12);
+    let mut calls = Vec::new();
+    let mut t: i128 = 0;
+    for _ in 0..ncalls {
+        t += 1000;
+        let len = p.range(1, 3);
+        let evs: Vec<TriggerEvent> = (0..len)
+            .map(|_| match p.below(4) {
+                0 | 1 => TriggerEvent::NormalSent,
+                2 => TriggerEvent::NormalRecv,
+                _ => TriggerEvent::PaddingSent { machine: MachineId::from_raw(p.below(nm as u64 + 1) as usize) },
+            })
+            .collect();
+        calls.push((t, evs));
+    }
+    FwCase { id, kind: "czcycle".into(), machines, fp: 0.0, fb: 0.0, t0: 0, calls, rng_seed: p.next(), extreme: 0, ni: None, prefix: vec![] }
 }
 
 pub fn gen_kind(kind: &str, p: &mut Prng, id: String) -> Option<FwCase> {
@@ -105,6 +363,7 @@ pub fn gen_kind(kind: &str, p: &mut Prng, id: String) -> Option<FwCase> {
         "c08" => Some(gen_c08(p, id)),
         "c09" => Some(gen_c09(p, id)),
         "ni" => Some(gen_ni(p, id)),
+        "czcycle" => Some(gen_czcycle(p, id)),
         _ => None,
     }
 }
